@@ -65,9 +65,13 @@ func RunProgram(tr *Trace, run int, p Program, stats *SeqStats) error {
 		}
 	}
 	st := srv.DB.VerifDump()
+	preset := make([]any, len(p.Preset))
+	for i, c := range p.Preset {
+		preset[i] = toksJSON(c)
+	}
 	tr.Emit(map[string]any{
 		"ev": "reset", "run": run, "now": srv.Now(),
-		"st": projState(srv.Ep, st), "mem": st.MemUsed,
+		"st": projState(srv.Ep, st), "mem": st.MemUsed, "preset": preset,
 	})
 	nontrivial := false
 	var sample []any
